@@ -14,6 +14,8 @@ package main
 // that can pay) and "rebind" (an `asset $cur` variable is the asset of monetary literals in send amounts, caps, overdrafts,
 // metadata values and saves).  Every program whose variables can take other values also carries "vars2" (/ "ameta2"): a second
 // variable map (stored metadata) for the SAME text — assets, accounts, monetaries, numbers, portions switched.
+// In front of about 7 % of the programs an ADDITIONAL focused multi-statement case is emitted (numscript_focus.go: "deep-debt",
+// "repeat-piece", "self-transfer", "kept-in-order", "sendall-unbounded"; fields "shape", "focus"), from a stream of its own.
 //
 // input : {"text":…, "ast":{"vars":[…],"stmts":[…]}, "vars":{name:raw}, "meta":{k:v}, "bal":[[acct,asset,int]…], "ameta":[[acct,key,val]…],
 //          "vars2":{name:raw}?, "ameta2":[[acct,key,val]…]?}
